@@ -107,10 +107,20 @@ Fixpoint parse_hex_aux (s : text) (acc : N) (prev_us : bool) : option N :=
                    | None => None
                    end
   end.
-Definition parse_hex (s : text) : option N :=
+(* int() accepts an "0x" base prefix, optionally followed by one underscore *)
+Definition strip_0x (s : text) : text :=
   match s with
+  | c1 :: c2 :: r =>
+      if N.eqb c1 48 && N.eqb c2 120
+      then match r with u :: r' => if N.eqb u ch_us then r' else r | [] => r end
+      else s
+  | _ => s
+  end.
+Definition parse_hex (s : text) : option N :=
+  let body := strip_0x s in
+  match body with
   | [] => None
-  | c :: _ => if N.eqb c ch_us then None else parse_hex_aux s 0 false
+  | c :: _ => if N.eqb c ch_us then None else parse_hex_aux body 0 false
   end.
 
 Definition decode_escape (is_u : bool) (body : text) : res N :=
@@ -167,15 +177,26 @@ Fixpoint unescape (fuel : nat) (s : text) : res text :=
 
 Definition is_us (c : N) : bool := N.eqb c ch_us.
 
+(* split off the maximal run of trailing underscores *)
+Fixpoint split_trailing (s : text) : text * text :=
+  match s with
+  | [] => ([], [])
+  | c :: r =>
+      let '(m, suf) := split_trailing r in
+      match m with
+      | [] => if is_us c then ([], c :: suf) else ([c], suf)
+      | _ => (c :: m, suf)
+      end
+  end.
+
 (* re.fullmatch of: one or more underscores, lazy anything, trailing underscores (DOTALL) *)
 Definition split_affixes (s : text) : text * text * text :=
   match s with
   | c :: _ =>
       if is_us c then
         let pre := takewhile is_us s in
-        let rest := dropwhile is_us s in
-        let suf := takewhile is_us (rev rest) in
-        (pre, rev (dropwhile is_us (rev rest)), suf)
+        let '(mid, suf) := split_trailing (dropwhile is_us s) in
+        (pre, mid, suf)
       else ([], s, [])
   | [] => ([], s, [])
   end.
